@@ -235,6 +235,43 @@ def file_reads(rep, rule="F-file"):
                 problems.append("a time is converted by %s, not by round(frameRate * time)" % ", ".join(conv.bad))
         rep.check(not problems, rule, fn.short, what, ok="setpos(round(frameRate*start)) then one readframes", bad="; ".join(problems), loc=fn.loc)
     rep.floor(rule, 2)
+    # QueryWav.getFrames / getSamples hand the requested times to readFramesAtTime unchanged: None means the start / the
+    # end of the recording, a time of exactly 0 is a time (not "no time given")
+    from ..absint import ObjVal
+    qcls = idx.cls("QueryWav")
+    gf = qcls.lookup("getFrames")
+    rep.functions.add(gf.qual)
+    dur = Lin.var("dur")
+    cases = [("(ta, tb)", [ta, tb], (ta, tb)), ("(0, tb)", [Lin.num(0), tb], (Lin.num(0), tb)), ("(0, 0): an empty stretch at the very start", [Lin.num(0), Lin.num(0)], (Lin.num(0), Lin.num(0))),
+             ("(0.0, 0.0)", [Lin.num(0).as_float(), Lin.num(0).as_float()], (Lin.num(0), Lin.num(0))), ("(ta, None)", [ta, None], (ta, dur)), ("(None, tb)", [None, tb], (Lin.num(0), tb)), ("()", [], (Lin.num(0), dur))]
+    problems, unknown = [], []
+    st_q = State([("0", Lin.num(0)), ("ta", ta), ("tb", tb), ("dur", dur)], [0, 1, 2, 3])  # 0 < ta < tb < dur
+    for what, args_, want in cases:
+        calls = []
+        I = Interp(idx, st_q, overrides=default_overrides())
+
+        def rec(I_, a, k, calls=calls):
+            calls.append(list(a))
+            return BufVal([("file", Lin.num(0), Lin.num(0))])
+        I.overrides = dict(I.overrides)
+        I.overrides[fn.qual] = rec
+        q = ObjVal(qcls)
+        q.attrs.update({"audiofile": "HANDLE", "duration": dur, "frameRate": Lin.num(FR), "sampleWidth": Lin.num(W), "nframes": Lin.var("n")})
+        try:
+            I.call_function(gf, [q] + args_, {})
+        except PyRaise as e:
+            problems.append("%s: raises %s" % (what, e.name))
+            continue
+        except Undecided as e:
+            unknown.append("%s: %s" % (what, e))
+            continue
+        if len(calls) != 1 or len(calls[0]) != 3 or calls[0][0] != "HANDLE" or not all(isinstance(x, Lin) and x.same(w_) for x, w_ in zip(calls[0][1:], want)):
+            problems.append("getFrames%s reads %s, expected the stretch (%r, %r) of its own file" % (what, [c[1:] for c in calls], want[0], want[1]))
+    if unknown and not problems:
+        rep.undecided(rule, gf.short, "times handed to readFramesAtTime for %d argument shapes" % len(cases), "; ".join(unknown), loc=gf.loc)
+    else:
+        rep.check(not problems, rule, gf.short, "times handed to readFramesAtTime for %d argument shapes" % len(cases), ok="passed through unchanged; None = start / end of the recording; 0 is a time",     bad="; ".join(problems), loc=gf.loc)
+    rep.floor(rule, 3)
 
 
 def pack_unpack(rep, rule="F3-pack"):
